@@ -120,8 +120,14 @@ func mergeMappings(mapping map[string]any, other map[string]any, p tree.Path) (m
 
 // logging driver options are merged only when both compose file define the same driver
 func mergeLogging(c any, o any, p tree.Path) (any, error) {
-	config := c.(map[string]any)
-	other := o.(map[string]any)
+	config, ok := c.(map[string]any)
+	if !ok {
+		return nil, fmt.Errorf("cannot override %s", p)
+	}
+	other, ok := o.(map[string]any)
+	if !ok {
+		return nil, fmt.Errorf("cannot override %s", p)
+	}
 	// we override logging config if source and override have the same driver set, or none
 	d, ok1 := other["driver"]
 	o, ok2 := config["driver"]
